@@ -90,10 +90,6 @@ func (v *autoEscapeVisitor) escapePrints(n parse.Node, ct string) {
 		return
 	case *parse.PrintNode:
 		x := node.X
-		if f, ok := x.(*parse.FilterExpr); ok && f.Name == "escape" {
-			// escaped explicitly, with the strategy the template chose: not a second time
-			return
-		}
 		node.X = parse.NewFilterExpr(
 			"escape",
 			[]parse.Expr{x, parse.NewStringExpr(ct, x.Start())},
